@@ -189,7 +189,7 @@ func IsShrinkByOne(v ssa.Value, base ssa.Value) bool {
 // FindLoopVars identifies the four state variables of the token loop by role.
 func (s *San) FindLoopVars() *LoopVars {
 	lv := &LoopVars{}
-	var bools []*ssa.Phi
+	var bools, ints, slices []*ssa.Phi
 	for _, p := range headerPhis(s.Header) {
 		switch t := p.Type().Underlying().(type) {
 		case *types.Basic:
@@ -197,33 +197,49 @@ func (s *San) FindLoopVars() *LoopVars {
 			case t.Kind() == types.Bool:
 				bools = append(bools, p)
 			case t.Info()&types.IsInteger != 0:
-				if lv.Depth != nil {
-					lv.Why = append(lv.Why, "more than one integer loop variable")
-				}
-				lv.Depth = p
+				ints = append(ints, p)
 			}
 		case *types.Slice:
-			if lv.Stack != nil {
-				lv.Why = append(lv.Why, "more than one slice loop variable")
-			}
-			lv.Stack = p
+			slices = append(slices, p)
 		}
 	}
+	// the pairs are found by what is done to them together: a flag set to true where a counter is incremented (skip flag /
+	// skip depth), a flag set to true where a list is appended to (pending flag / pending-close stack); other counters or
+	// lists the loop may carry are not part of the mechanism
+	nSkip, nPend := 0, 0
 	for _, b := range bools {
-		if lv.Depth != nil {
-			for _, st := range JointSites(b, lv.Depth) {
-				if k, ok := IsIncr(st.V2, lv.Depth); ok && k > 0 && isTrue(st.V1) {
-					lv.Skip = b
+		for _, d := range ints {
+			for _, st := range JointSites(b, d) {
+				if k, ok := IsIncr(st.V2, d); ok && k > 0 && isTrue(st.V1) {
+					if lv.Skip != b || lv.Depth != d {
+						nSkip++
+					}
+					lv.Skip, lv.Depth = b, d
 				}
 			}
 		}
-		if lv.Stack != nil {
-			for _, st := range JointSites(b, lv.Stack) {
-				if _, ok := IsAppendTo(st.V2, lv.Stack); ok && isTrue(st.V1) {
-					lv.Pending = b
+		for _, sl := range slices {
+			for _, st := range JointSites(b, sl) {
+				if _, ok := IsAppendTo(st.V2, sl); ok && isTrue(st.V1) {
+					if lv.Pending != b || lv.Stack != sl {
+						nPend++
+					}
+					lv.Pending, lv.Stack = b, sl
 				}
 			}
 		}
+	}
+	if nSkip > 1 {
+		lv.Why = append(lv.Why, "more than one flag/counter pair that could be the skip mechanism")
+	}
+	if nPend > 1 {
+		lv.Why = append(lv.Why, "more than one flag/list pair that could be the pending-close mechanism")
+	}
+	if lv.Depth == nil && len(ints) == 1 {
+		lv.Depth = ints[0]
+	}
+	if lv.Stack == nil && len(slices) == 1 {
+		lv.Stack = slices[0]
 	}
 	if lv.Skip == nil {
 		lv.Why = append(lv.Why, "no boolean loop variable is set to true together with an increment of the integer loop variable (skip flag / skip depth pair)")
